@@ -177,7 +177,11 @@ where
     ) -> Result<iana::Algorithm, Ctap2Error> {
         params
             .iter()
-            .find(|param| self.algs.contains(&param.alg))
+            // parameters of a type which is not known are to be ignored
+            .find(|param| {
+                param.ty == webauthn::PublicKeyCredentialType::PublicKey
+                    && self.algs.contains(&param.alg)
+            })
             .map(|param| param.alg)
             .ok_or(Ctap2Error::UnsupportedAlgorithm)
     }
